@@ -6,7 +6,11 @@
     into `domainC_agrees` / `domainE_agrees`;
   * `VoigtSrcTables`: the source's keys for the 81 tuples / 36 pairs / strains in the model's vocabulary, and the spellings;
   * `VoigtSrcViews`: every view (Voigt, standard, multiplicity, flags, calc_type, repr) of the 21 keys, canonical ordering;
-  * `VoigtSrcInts`: rejection for ALL integers — the evaluator runs in the kernel with partly symbolic arguments (`kernel_rfl`).
+  * `VoigtSrcInts`: rejection for ALL integers — the evaluator runs in the kernel with partly symbolic arguments (`kernel_rfl`);
+  * `VoigtSrcSort`: `sorted((i, j))` on two symbolic integers (continuation extraction + case split), `from_standard` of both
+    classes for all integers in any calling context;
+  * `VoigtSrcDigits`: `str(n)`, the generator expression over a digit string of symbolic length, `create` by number of digits;
+  * `VoigtSrcModelInts`: translated source = hand model for ALL integer spellings (one, two, four arguments).
   (Separate files so that `lake` checks them in parallel.)
 -/
 import CijProofs.Lemmas.PyLite
@@ -19,6 +23,9 @@ import CijProofs.Lemmas.VoigtSrcC4_4
 import CijProofs.Lemmas.VoigtSrcTables
 import CijProofs.Lemmas.VoigtSrcViews
 import CijProofs.Lemmas.VoigtSrcInts
+import CijProofs.Lemmas.VoigtSrcSort
+import CijProofs.Lemmas.VoigtSrcDigits
+import CijProofs.Lemmas.VoigtSrcModelInts
 
 namespace Cij.VoigtSrc
 open PyLite
